@@ -73,6 +73,11 @@ CHECKS.update({
          'The configuration product is finite and enumerated completely in the thorough tier (every third combination in quick); values and file syntax are sampled.',
          'Trusts the resolver in pbt/checks/c20_client_conf.py; Platform candidate-path methods are replaced on the singleton (plus one un-patched Linux pass).', '6/C20'),
 })
+CHECKS.update({
+ 'C19': ('Exhaustive enumeration of small objects x discovery answers x leading-loss matrices + Hypothesis-generated objects / loss matrices / faults against a scripted producer on the virtual loop; oracle: expected yield list, failure point, per-segment attempt count, no Interest beyond the final segment',
+         'The N<=4, r<=3 loss-matrix space is enumerated completely in the thorough tier; larger objects and random loss patterns are sampled.',
+         'Trusts the expected-yield model in pbt/checks/c19_segment_fetch.py; responses immediate, losses = silence.', '6/C19'),
+})
 NOT_YET = {}
 def main():
     props = [json.loads(l) for l in open(os.path.join(ROOT, 'properties.jsonl'))]
